@@ -244,6 +244,75 @@ def wiring_rule(ctx, p):
     ctx.ob(rule, os_.key + ".sub_fraction", txt == {"sub_fraction": "1.0 / self.sub_length", "sub_length": "self.sub_size ** self.mask.dimensions"}, where=os_.lookup("sub_fraction"), node=None, construct=str(txt), message="sub_fraction must be 1 / sub_size^2 (for a 2-D mask)")
 
 
+def _versions(f):
+    """straight-line value identity: for every Name load in f, the assignment whose value it denotes (id of the assigned expression), following rebinding in statement order"""
+    env = {}
+    at = {}
+
+    def expr(e):
+        for n in ast.walk(e):
+            if isinstance(n, ast.Name) and isinstance(n.ctx, ast.Load):
+                at[id(n)] = env.get(n.id, ("param", n.id))
+
+    def block(body):
+        for st in body:
+            if isinstance(st, ast.Assign):
+                expr(st.value)
+                for t in st.targets:
+                    if isinstance(t, ast.Name):
+                        env[t.id] = ("value", id(st.value))
+            elif isinstance(st, ast.Try):
+                block(st.body)
+                for h in st.handlers:
+                    block(h.body)
+            elif isinstance(st, (ast.Return, ast.Expr)):
+                if st.value is not None:
+                    expr(st.value)
+            elif isinstance(st, (ast.If, ast.For, ast.While, ast.With)):
+                for n in ast.walk(st):
+                    if isinstance(n, ast.Name) and isinstance(n.ctx, ast.Store):
+                        env[n.id] = ("join", id(st))
+                expr(st)
+    block(f.node.body)
+    return at
+
+
+def grids_rule(ctx, p):
+    """the data grid the mapper keeps is the grid its mesh was built from: the relocated one"""
+    rule = "C06.grids"
+    ctx.rule(rule, "mapper_grids_from: the (border-relocated) data grid returned by relocated_grid_from is the grid the mesh is built from AND the grid handed to MapperGrids")
+    n = 0
+    for ck in ("autoarray.inversion.pixelization.mesh.rectangular:Rectangular", "autoarray.inversion.pixelization.mesh.triangulation:Triangulation"):
+        c = p.cls(ck)
+        m = c.methods.get("mapper_grids_from")
+        if m is None:
+            raise AnchorMissing(f"{ck}.mapper_grids_from")
+        n += 1
+        at = _versions(m)
+        s_ = m.params[0]
+        rel = [x for x in m.calls() if norm_text(x.func) == f"{s_}.relocated_grid_from"]
+        mesh = [x for x in m.calls() if norm_text(x.func) == f"{s_}.mesh_grid_from"]
+        mg = [r.value for r in wire.returns_of(m) if isinstance(r.value, ast.Call) and norm_text(r.value.func) == "MapperGrids"]
+        ok = len(rel) == 1 and len(mesh) == 1 and len(mg) == 1 and len(wire.returns_of(m)) == 1
+        det = f"{len(rel)} relocation, {len(mesh)} mesh construction, {len(mg)} MapperGrids"
+        if ok:
+            want = ("value", id(rel[0]))
+            got_mesh = wire.kw(mesh[0]).get("source_plane_data_grid")
+            got_mg = wire.kw(mg[0]).get("source_plane_data_grid")
+            v1 = at.get(id(got_mesh)) if isinstance(got_mesh, ast.Name) else None
+            v2 = at.get(id(got_mg)) if isinstance(got_mg, ast.Name) else None
+            ok = v1 == want and v2 == want
+            det = f"mesh built from {'the relocated grid' if v1 == want else norm_text(got_mesh)}; MapperGrids keeps {'the relocated grid' if v2 == want else norm_text(got_mg) + ' (not the relocated grid)'}"
+            # the relocation itself is applied to the caller's data grid with the caller's relocator
+            kw = wire.kwtext(rel[0])
+            ok = ok and kw.get("border_relocator") == "border_relocator" and kw.get("source_plane_data_grid") == "source_plane_data_grid" and at.get(id(wire.kw(rel[0])["source_plane_data_grid"])) == ("param", "source_plane_data_grid")
+            mgm = wire.kw(mg[0]).get("source_plane_mesh_grid")
+            ok = ok and isinstance(mgm, ast.Name) and at.get(id(mgm)) == ("value", id(mesh[0]))
+        ctx.ob(rule, m.key, ok, where=m, node=mg[0] if mg else m.node, construct=det,
+               message="the mapper must keep the SAME relocated data grid that its mesh was built from; with the un-relocated grid, sub-pixels outside the border fall outside the mesh and are paired with cells that do not contain them")
+    ctx.require_count(rule, "mesh classes", n, 2)
+
+
 def run(ctx):
     p = ctx.p
     K = KEval(p)
@@ -257,10 +326,13 @@ def run(ctx):
     delaunay_rule(ctx, p, K)
     rectangular_rule(ctx, p)
     wiring_rule(ctx, p)
+    grids_rule(ctx, p)
 
 
 _M = "autoarray/inversion/pixelization/mappers/mapper_util.py"
 CONTROLS = [
+    Control("rectangular mapper keeps the un-relocated data grid (seed C06/3)", "autoarray/inversion/pixelization/mesh/rectangular.py", in_func("Rectangular.mapper_grids_from", "            source_plane_data_grid=relocated_grid,\n            source_plane_mesh_grid=mesh_grid,", "            source_plane_data_grid=source_plane_data_grid,\n            source_plane_mesh_grid=mesh_grid,"), "C06.grids"),
+    Control("triangulation mesh built from the un-relocated grid", "autoarray/inversion/pixelization/mesh/triangulation.py", in_func("Triangulation.mapper_grids_from", "        source_plane_data_grid = self.relocated_grid_from(", "        relocated = self.relocated_grid_from("), "C06.grids"),
     Control("dense form uses the sub-pixel's own fraction index", _M, in_func("mapping_matrix_from", "sub_fraction[slim_index] * pix_weight", "sub_fraction[sub_slim_index] * pix_weight"), "C06.dense"),
     Control("dense form overwrites instead of accumulating", _M, in_func("mapping_matrix_from", "mapping_matrix[slim_index][pix_index] += (", "mapping_matrix[slim_index][pix_index] = ("), "C06.dense"),
     Control("running offset replaced by ip * sub^2 (seed C06/1)", _M, in_func("data_slim_to_pixelization_unique_from", "        ip_sub_end = ip_sub_start + sub_size[ip] ** 2", "        ip_sub_start = ip * sub_size[ip] ** 2\n        ip_sub_end = ip_sub_start + sub_size[ip] ** 2"), "C06.unique"),
